@@ -27,6 +27,7 @@ class Env:
         self.posts = []
         self.responder = None
         self.ofxhome = {}
+        self.ofxhome_wire = False     # True: the real ofxhome.lookup runs against a fake OFX Home answering XML records
 
     @property
     def usercfg_path(self):
@@ -64,7 +65,35 @@ class Env:
         def lookup(id_, *a, **k):
             return env.ofxhome.get(str(id_))
         import ofxtools.ofxhome as ofxhome
-        ofxhome.lookup = lookup
+        if env.ofxhome_wire:
+            importlib.reload(ofxhome)
+            import types
+            import urllib.error
+            import urllib.parse
+            from xml.sax import saxutils
+
+            class _Resp(io.BytesIO):
+                def __enter__(self):
+                    return self
+
+                def __exit__(self, *a):
+                    return False
+
+            def urlopen(query, *a, **k):
+                q = urllib.parse.parse_qs(urllib.parse.urlparse(query).query)
+                rec = env.ofxhome.get((q.get("lookup") or [""])[0])
+                if rec is None:
+                    raise urllib.error.URLError("no such institution")
+                fields = "".join("<%s>%s</%s>" % (f, saxutils.escape(getattr(rec, f)), f) for f in ("fid", "org", "url", "brokerid")
+                                 if getattr(rec, f, None) is not None)
+                xml = ('<institution id="%s"><name>Fake &amp; Sons</name>%s<ofxfail>0</ofxfail><sslfail>0</sslfail>'
+                       '<lastofxvalidation>2019-04-29 23:08:45</lastofxvalidation><lastsslvalidation>2019-04-29 23:08:44</lastsslvalidation>'
+                       '<profile finame="Fake" addr1="1 St" bankmsgset="true" signonmsgset="true"/></institution>'
+                       % ((q.get("lookup") or [""])[0], fields))
+                return _Resp(xml.encode())
+            ofxhome.urllib = types.SimpleNamespace(request=types.SimpleNamespace(urlopen=urlopen), error=urllib.error, parse=urllib.parse)
+        else:
+            ofxhome.lookup = lookup
         ofxget.ofxhome = ofxhome
         return ofxget
 
